@@ -851,7 +851,8 @@ def edit_stream(ctx, pool, n):
     return fails
 
 
-RESIZE_OPS = ["add_row", "delete_row", "add_column", "delete_column", "header_rows", "header_cols"]
+RESIZE_OPS = ["add_row", "delete_row", "add_column", "delete_column", "header_rows", "header_cols", "label_write_refused_style",
+              "label_write_styled"]
 
 
 def do_resize(tb, op, at):
@@ -865,6 +866,15 @@ def do_resize(tb, op, at):
         tb.num_header_rows = 2 if tb.num_header_rows <= 1 else tb.num_header_rows - 1
     elif op == "header_cols":
         tb.num_header_cols = 2 if tb.num_header_cols <= 1 else tb.num_header_cols - 1
+    elif op in ("label_write_refused_style", "label_write_styled"):
+        # a new label written into the last header row / header column together with a style argument; a style the
+        # document does not have makes the call raise (after the value is stored): whatever the call leaves behind,
+        # the printed references must describe the document as it then is
+        for r, c in ((max(tb.num_header_rows - 1, 0), at), (at, max(tb.num_header_cols - 1, 0))):
+            try:
+                tb.write(r, c, f"relabelled {r} {c}", style="no such style" if op == "label_write_refused_style" else "Body")
+            except (IndexError, TypeError):
+                pass
     else:
         tb.delete_column(start_col=at)
 
